@@ -25,6 +25,8 @@ func runC03(p *core.Prog, r *core.Report) {
 	c03Slots(c, ExtractProtocol(p, "ecdsa/keygen"))
 	c15CheckIndexes(c)
 	c17Cofactor(c)
+	// the public share points X_j = Σ V_c·k_j^c: the running power must not be updated through an alias of k_j
+	aliasedInPlaceUpdates(c, "RA.1", "ecdsa/keygen", "eddsa/keygen", "crypto/vss", "crypto", "common")
 }
 
 // ---- R03.1 -----------------------------------------------------------------------------------
